@@ -10,6 +10,7 @@ import Driver.Ops.Pool
 import Driver.Ops.Proxy
 import Driver.Ops.Relay
 import Driver.Ops.Reply
+import Driver.Ops.Sched
 import Driver.Ops.Server
 import Driver.Ops.Store
 open Slimta Slimta.Driver
@@ -28,6 +29,7 @@ def dispatch (line : String) : String :=
   | "proxy" :: rest => proxyOp rest
   | "relay" :: rest => relayOp rest
   | "reply" :: rest => replyOp rest
+  | "sched" :: rest => schedOp rest
   | "server" :: rest => serverOp rest
   | "store" :: rest => storeOp rest
   | _ => "bad-op"
